@@ -384,6 +384,53 @@ def gen_phase_init():
     return txt
 
 
+# ------------------------------------------------------------------------------------------------ reader of GAS_BINARY_PARAMETERS
+def gen_bip_reader():
+    """read.cpp: read_gas_binary_parameters.  calc_PR looks k_ij up as (name_i, name_j) in a double loop, so the reader must keep
+    the table symmetric under ANY sequence of (re)definitions: both orderings overwritten by assignment.  Emits the stores
+    `gas_binary_parameters[<key>] = <value>` as (first name, second name, value) with local pair variables resolved, and every
+    other mutating member call on the table."""
+    fn = leaf.load_function(os.path.join(vlib.REPO, "src/phreeqcpp/read.cpp"), "read_gas_binary_parameters")
+
+    def names_in(n, acc):
+        if isinstance(n, dict):
+            if n.get("kind") == "DeclRefExpr" and n.get("referencedDecl", {}).get("kind") == "VarDecl":
+                nm = n["referencedDecl"].get("name", "?")
+                inits = [t for t in fn.sites if t.lhs == nm and t.kind == "init"]
+                # a local std::pair variable: replace it by the names it was constructed from
+                if inits and nm not in ("gas1", "gas2") and "pair" in (n.get("type", {}).get("qualType", "")):
+                    names_in(inits[0].node, acc)
+                else:
+                    acc.append(nm)
+            for c in n.get("inner", []) or []:
+                names_in(c, acc)
+    stores, other = [], []
+
+    def walk(n):
+        if not isinstance(n, dict):
+            return
+        k = n.get("kind")
+        if k == "BinaryOperator" and n.get("opcode") == "=":
+            l = leaf._strip(n["inner"][0])
+            if l.get("kind") == "CXXOperatorCallExpr" and leaf.render(l).startswith("gas_binary_parameters["):
+                acc = []
+                for a in l["inner"][2:]:
+                    names_in(a, acc)
+                stores.append((acc, leaf.render(n["inner"][1])))
+        if k == "CXXMemberCallExpr":
+            callee = leaf._strip(n["inner"][0])
+            if callee.get("kind") == "MemberExpr" and callee.get("inner") and "gas_binary_parameters" in leaf.render(callee["inner"][0]) \
+                    and callee.get("name") in ("insert", "emplace", "emplace_hint", "erase", "clear", "swap", "try_emplace", "insert_or_assign", "merge"):
+                other.append(callee.get("name"))
+        for c in n.get("inner", []) or []:
+            walk(c)
+    walk(fn.decl)
+    txt = "Definition bip_reader_stores : list (string * string * string) := [%s].\n" % "; ".join(
+        "(%s, %s, %s)" % (cs(a[0] if len(a) > 0 else "?"), cs(a[1] if len(a) > 1 else "?"), cs(v)) for a, v in stores)
+    txt += "Definition bip_reader_other_mutations : list string := %s.\n" % strlist(other)
+    return txt
+
+
 # ------------------------------------------------------------------------------------------------ mb_gases
 def gen_mb():
     fn = leaf.load_function(os.path.join(vlib.REPO, "src/phreeqcpp/model.cpp"), "mb_gases")
@@ -463,7 +510,7 @@ def _generate():
     text = leaf.emit_coq(leaves, header="C19: calc_PR (prep.cpp, gases.cpp), calc_gas_pressures, mb_gases (model.cpp), "
                          "calc_fixed_volume_gas_pressures, calc_gas_binary_parameter (gases.cpp)", extra="")
     text = text.replace("From IPV Require Import Base.RExpr.", "From IPV Require Import Base.RExpr C19.BExpr.")
-    text += "Open Scope Q_scope.\n" + extra_pr + extra_mb + extra_b + gen_phase_init()
+    text += "Open Scope Q_scope.\n" + extra_pr + extra_mb + extra_b + gen_phase_init() + gen_bip_reader()
     vlib.write_if_changed(os.path.join(vlib.COQ, "Gen", "Gen_C19_gases.v"), text)
     return {l.name: l for l in leaves}, rows
 
